@@ -139,6 +139,8 @@ def loop_exits(fn, L):
     def rec(i, depth_loop, depth_switch):
         m = fn.nodes[i]
         k = m["k"]
+        if k.startswith("Other:Lambda"):
+            return          # the body of a closure is another function: its return/break do not leave this loop
         if k == "return":
             res.append((i, "return"))
         elif k == "throw":
